@@ -31,7 +31,7 @@ def run(ctx: Ctx):
     def sx(q):
         return spark.sql(q).collect()[0][0]
     c06.table_stage(ctx, ["spark"], spark_exec=sx)
-    n = 8
+    n = 3
     terms, metas = [], []
     for i in range(n):
         case = c06_x.gen_pipeline(ctx.rng, 1000 + i, ["duckdb", "spark"])
